@@ -296,6 +296,8 @@ def run(tier, seed):
     dreq_, dmeta_ = [], []
     pool_login = pyenc.literal_pool(REPO, "login")
     pool_world = pyenc.literal_pool(REPO, "world")
+    if tier == "quick" and len(pool_world) > 8000:
+        pool_world = sorted({pool_world[prng.below(len(pool_world))] for _ in range(8000)})
     has_int4 = lambda c: any(c["tokens"][k] == "int" and c["tokens"][k + 1] in ("4", "8") for k in range(len(c["tokens"]) - 1))
     lg = [c for c in plain if c["lib"] == "login" and has_int4(c)]
     wd = [c for c in plain if c["lib"] != "login" and has_int4(c)]
